@@ -182,7 +182,10 @@ def main():
     else:
         cases = mod.generate(tier, rng)
         import gen2
-        cases += gen2.extra(pid, tier, random.Random(seed * 7919 + 13))   # families shared between properties (own random stream)
+        extra = gen2.extra(pid, tier, random.Random(seed * 7919 + 13))   # families shared between properties (own random stream)
+        for c in extra:
+            c.meta['gen2'] = True
+        cases += extra
         corpus_dir = os.path.join(VERIF, 'corpus', pid)
         if os.path.isdir(corpus_dir):
             pre = []
@@ -231,7 +234,8 @@ def main():
         # intrinsic oracle
         if hasattr(mod, 'intrinsic'):
             try:
-                why = mod.intrinsic(c, io, ia) or gen2.intrinsic(c, io)
+                # the property's own oracle reads the meta data of its own generators; the shared families carry their own expectations
+                why = gen2.intrinsic(c, io) if c.meta.get('gen2') else mod.intrinsic(c, io, ia)
             except Exception as e:
                 why = 'intrinsic oracle raised %r' % (e,)
             if why:
